@@ -246,6 +246,13 @@ def gen_cases(tier, seed):
         if rng.random() < 0.5:
             fault_or_cancel(rng, spec['transfers'][0], spec)
         cases.append(spec)
+    # a quarter of the runs in which something is cancelled or fails have the package's loggers at DEBUG with a handler that formats
+    # every record (log calls made while a lock is held then run the objects' __str__ / __repr__ under that lock)
+    r2 = random.Random(seed + 77)
+    for c in cases:
+        plan = c.get('plan') or {}
+        if (plan.get('cancel') or plan.get('faults') or c.get('mode')) and 'debug_log' not in c and r2.random() < 0.25:
+            c['debug_log'] = True
     rng.shuffle(cases)
     return cases
 
